@@ -1,5 +1,5 @@
 // ===== shim/labeled_comm.rs =====
-// mirror of LabeledCommitment<C> (data_structures.rs): constructor and plain getters
+// LabeledCommitment<C> as the callers see it: the constructor / getter contracts restated here are PROVED for the real functions of data_structures.rs in units/labeled_types.rs
 pub struct LabeledCommitment<C> { pub label: String, pub commitment: C, pub degree_bound: Option<usize> }
 impl<C> LabeledCommitment<C> {
     pub fn new(label: String, commitment: C, degree_bound: Option<usize>) -> (r: Self)
